@@ -63,8 +63,8 @@ pub fn sigma13() -> Vec<Event> {
     v.push(Event::Process(ty));
     // decode only
     v.push(Event::Decode(forge_request(SRC, DST, 0, false, 0x01, &[1, 0x44])));
-    // accessor writes
-    for val in [0x05u8, 0x00] {
+    // accessor writes; 0x02 collides on purpose with an assignable EID of the alphabet
+    for val in [0x02u8, 0x00] {
         v.push(Event::SetEidReq(val));
         v.push(Event::SetEidResp(val));
     }
@@ -78,8 +78,8 @@ fn c13_filter(d: &Diff, _h: &[Event]) -> bool {
 fn inits13() -> Vec<(&'static str, Vec<Event>)> {
     vec![
         ("fresh", vec![]),
-        ("both cells 0x42", vec![Event::SetEidReq(0x42), Event::SetEidResp(0x42)]),
-        ("cells 0x11/0x22", vec![Event::SetEidReq(0x11), Event::SetEidResp(0x22)]),
+        ("both cells 0x80", vec![Event::SetEidReq(0x80), Event::SetEidResp(0x80)]),
+        ("cells 0x01/0x7F (out of sync, both assignable values)", vec![Event::SetEidReq(0x01), Event::SetEidResp(0x7F)]),
     ]
 }
 
@@ -110,7 +110,11 @@ pub fn run_c13(run: &mut Run) {
         stateless(run, "C13", &format!("sigma13 from {}", iname), &m, d, &c13_filter);
         let st = bfs(run, "C13", &format!("sigma13 from {}", iname), &m, &c13_filter, 100_000);
         record_stats(run, &format!("sigma13 from {}", iname), &st);
+        if run.acc.viol_count == 0 {
+            crosscheck_stateright(run, &format!("sigma13 from {}", iname), &m, &st);
+        }
     }
+    c13_accessor_values(run);
     // full-domain breadth: every ordered pair of assignments over all EIDs 0x01..=0xFE
     let n1 = 254u64 * 2;
     run.sweep_chunked("every sequence of length <= 2 over Set EID(Set|Force, e), all e in 0x01..=0xFE", n1 + n1 * n1, |acc, lo, hi| {
@@ -132,6 +136,37 @@ pub fn run_c13(run: &mut Run) {
                 acc.violation(seq.len() as u64, "assignment-pair", df.text.clone(), || json!({"prop": "C13", "check": "history", "cfg": m.cfg, "init": m.init, "history": h}));
             }
         }
+    });
+}
+
+/// every value 0..=255 stored through either accessor (the statement's "or a
+/// value since stored directly through an accessor"), then read back everywhere
+fn c13_accessor_values(run: &mut Run) {
+    let cfg = Cfg::simple(DST);
+    run.sweep("every value 0..=255 stored through the request-half / response-half accessor (after an assignment), then Get EID twice", 256 * 2, |acc, i| {
+        let v = (i % 256) as u8;
+        let alphabet = vec![
+            req(0x01, &[0, 0x31]),
+            if i < 256 { Event::SetEidReq(v) } else { Event::SetEidResp(v) },
+            req(0x02, &[]),
+            req(0x02, &[]),
+        ];
+        let m = Machine { cfg: cfg.clone(), init: vec![], alphabet };
+        let owned = Owned::new(&cfg);
+        let pk = probes(&cfg);
+        acc.evals += 1;
+        acc.validated += 1;
+        for l in 2..=4usize {
+            let idx: Vec<u8> = (0..l as u8).collect();
+            let node = m.eval(&owned, &pk, &idx);
+            acc.trans += node.calls;
+            acc.state(node.key);
+            let h = m.history(&idx);
+            for df in node.diffs.iter().filter(|df| c13_filter(df, &h)) {
+                acc.violation(l as u64, "accessor-value", df.text.clone(), || json!({"prop": "C13", "check": "history", "cfg": m.cfg, "init": m.init, "history": h}));
+            }
+        }
+        acc.nontrivial(Fnv::default().u64(0x131).u64(i).finish());
     });
 }
 
@@ -206,6 +241,9 @@ pub fn run_c15(run: &mut Run) {
         stateless(run, "C15", &format!("sigma15 on configuration {}", k), &m, depth, &c15_filter);
         let st = bfs(run, "C15", &format!("sigma15 on configuration {}", k), &m, &c15_filter, 100_000);
         record_stats(run, &format!("sigma15 on configuration {}", k), &st);
+        if run.acc.viol_count == 0 {
+            crosscheck_stateright(run, &format!("sigma15 on configuration {}", k), &m, &st);
+        }
     }
     // message-type lists: every length x lanes
     let total: u64 = (0..=30u64).map(|l| 256 * l.max(1) * 3).sum();
